@@ -126,8 +126,8 @@ pub fn generate(family: &str, tier: &str, units: &[Unit], nshards: usize, out: &
         writeln!(src, "static TABLE: &[prog::harness::Entry] = &[\n{}];", table).unwrap();
         writeln!(src, "fn main() {{ prog::harness::main({:?}, {:?}, {}, {}, TABLE) }}", family, tier, shard, nshards).unwrap();
         write_if_changed(&dir.join(&cname).join("src/main.rs"), &src);
-        let byods_dep = if byods { "ascent-byods-rels = { path = \"/repo/byods/ascent-byods-rels\" }\n" } else { "" };
-        let cargo = format!("[package]\nname = \"{}\"\nversion = \"0.1.0\"\nedition = \"2021\"\n\n[dependencies]\nprog = {{ path = \"{}/prog\" }}\nascent = {{ path = \"/repo/ascent\" }}\n{}", cname, engines_dir, byods_dep);
+        let byods_dep = if byods { "ascent-byods-rels = { path = \"/repo/byods/ascent-byods-rels\", features = [\"verif-hooks\"] }\n" } else { "" };
+        let cargo = format!("[package]\nname = \"{}\"\nversion = \"0.1.0\"\nedition = \"2021\"\n\n[dependencies]\nprog = {{ path = \"{}/prog\", features = [\"hooks\"] }}\nascent = {{ path = \"/repo/ascent\", features = [\"verif-hooks\"] }}\n{}", cname, engines_dir, byods_dep);
         write_if_changed(&dir.join(&cname).join("Cargo.toml"), &cargo);
     }
     let ws = format!("[workspace]\nmembers = [{}]\nresolver = \"2\"\n\n[profile.release]\nopt-level = 0\ndebug = false\ncodegen-units = 8\nincremental = false\n\n[profile.release.package.prog]\nopt-level = 2\n[profile.release.package.ascent]\nopt-level = 2\n",
